@@ -447,7 +447,7 @@ func TestC07(t *testing.T) {
 	// ---- rule sets as a peer presents them: through the capability map and the real front door ----
 	frontDoor(t, r, genRules, rpats, rnames)
 
-	r.Require("listings_through_the_front_door", "decisions_on_edited_rules", "decisions_through_the_front_door", "exhaustive_pairs", "exhaustive_pairs_matching", "random_pairs", "random_pairs_matching", "ruleset_allowed", "ruleset_refused", "ruleset_decisions_via_json", "concurrent_matches")
+	r.Require("decisions_for_look_alike_rule_sets", "listings_through_the_front_door", "decisions_on_edited_rules", "decisions_through_the_front_door", "exhaustive_pairs", "exhaustive_pairs_matching", "random_pairs", "random_pairs_matching", "ruleset_allowed", "ruleset_refused", "ruleset_decisions_via_json", "concurrent_matches")
 	r.Rule("exhaustive: every (pattern,name) pair of the bounded spaces listed in exhaustive_spaces; random: Unicode patterns up to ~40 pieces with names derived by substituting each '*' and optionally perturbing; rule sets of 0-4 rules with 0-3 actions/patterns. A case is non-trivial/distinct by (number of stars capped at 3, leading star, trailing star, has regexp metacharacter, has newline, expected outcome) resp. (rule-set size, expected decision)")
 }
 
@@ -524,6 +524,39 @@ func frontDoor(t *testing.T, r *evid.Run, genRules func(*rand.Rand) []refmodel.R
 			if rep.Status >= 500 || got != want {
 				r.Violation("allow-differs-at-the-front-door", -1, fmt.Sprintf("a peer presenting the rules %+v asks for info on %q: status %d; a single rule listing the action with a matching pattern exists: %t", rules, name, rep.Status, want), map[string]any{"rules": rules, "name": name})
 				return
+			}
+		}
+	}
+	// rule SETS of different callers that look alike when written out (one pattern with a blank in it against two
+	// patterns; one action with a blank against two actions): on one long-lived server, each caller's requests -
+	// all three get variants and info - are decided by that caller's own rules, whoever asked before
+	for _, n := range []string{"dev/k", "prod/k", "dev/k prod/k", "a", "b", "a b"} {
+		d.Put(realdb.Super(), n, []byte("v"))
+	}
+	sets := [][][]refmodel.Rule{
+		{{{Actions: []string{"get", "info"}, Patterns: []string{"dev/*", "prod/*"}}}, {{Actions: []string{"get", "info"}, Patterns: []string{"dev/* prod/*"}}}},
+		{{{Actions: []string{"get"}, Patterns: []string{"a", "b"}}}, {{Actions: []string{"get"}, Patterns: []string{"a b"}}}},
+		{{{Actions: []string{"get", "info"}, Patterns: []string{"a"}}}, {{Actions: []string{"get info"}, Patterns: []string{"a"}}}},
+		{{{Actions: []string{"get"}, Patterns: []string{"a"}}, {Actions: []string{"info"}, Patterns: []string{"b"}}}, {{Actions: []string{"get"}, Patterns: []string{"a}", "{[info] [b"}}}},
+	}
+	for si, pair := range sets {
+		for _, order := range [][2]int{{0, 1}, {1, 0}, {0, 1}} {
+			for _, wi := range order {
+				rules := pair[wi]
+				a := fmt.Sprintf("100.64.7.%d:7", 10+2*si+wi)
+				srv.SetWho(a, httpdrv.Who{Login: fmt.Sprintf("peer-%d-%d@verif", si, wi), Node: "peer", Rules: rules})
+				for _, name := range []string{"dev/k", "prod/k", "dev/k prod/k", "a", "b", "a b"} {
+					for _, op := range []ops.Op{{Kind: ops.GetCond, Name: name, Version: 7}, {Kind: ops.Get, Name: name}, {Kind: ops.GetVer, Name: name, Version: 1}, {Kind: ops.Info, Name: name}} {
+						want := refmodel.Allowed(rules, op.Kind.Action(), name)
+						res, rep, _ := srv.Do(a, op)
+						r.Eval(1)
+						r.Count("decisions_for_look_alike_rule_sets", 1)
+						if got := res.Class == refmodel.OK; rep.Status >= 500 || got != want {
+							r.Violation("allow-differs-at-the-front-door", -1, fmt.Sprintf("a peer presenting the rules %+v: %s answered %d; one of ITS rules lists the action with a matching pattern: %t (another peer, whose rules look alike when written out, uses the same server)", rules, op, rep.Status, want), map[string]any{"rules": rules, "name": name})
+							return
+						}
+					}
+				}
 			}
 		}
 	}
